@@ -22,7 +22,7 @@ type c08Spec struct {
 	SemiSync bool     `json:"semi_sync"`
 	W        int      `json:"wait_count"`
 	NoFence  bool     `json:"disable_set_readonly_on_lost"`
-	Repl     []string `json:"replica_conditions"` // per other HA host: streaming stopped wrong_source not_semisync refusing timing_out
+	Repl     []string `json:"replica_conditions"` // per other HA host: streaming stopped wrong_source not_semisync refusing timing_out io_connecting
 	RO       string   `json:"read_only_attempt"`  // ok lock_wait deadline other_error
 	HealS    int      `json:"timeouts_heal_after_s"`
 	Turn     string   `json:"timing_out_replicas_then"` // healthy refusing stopped: what they are once they answer again
@@ -67,6 +67,13 @@ func c08Gen(seed int64, idx int) c08Spec {
 	sp.Turn = []string{"healthy", "refusing", "stopped"}[r.Intn(3)]
 	sp.Second = sp.RO != "lock_wait" && r.Intn(3) == 0
 	sp.SSFail = stuck && (idx/8)%2 == 1
+	if idx%16 == 1 {
+		// every replica can be queried by the lost master's daemon but has lost its own connection to the master: its IO
+		// thread reports Connecting - not streaming
+		sp.Role, sp.NoFence, sp.N, sp.W, sp.RO, sp.HealS, sp.Second, sp.SSFail = "master", false, 3, 1, "ok", 0, false, false
+		sp.SemiSync = (idx/16)%2 == 0
+		sp.Repl = []string{"io_connecting", "io_connecting"}
+	}
 	if idx%16 == 9 {
 		// a replica is unreachable at first (the postponement timer is armed) and refuses / has stopped replicating eight
 		// seconds later, well inside the delay: from then on nothing justifies waiting
@@ -383,6 +390,9 @@ func c08Run(u *Unit) {
 				s.W.Manual(h, "wrong source", func(x *world.Server) { x.Source = "elsewhere-db0" })
 			case "not_semisync":
 				s.W.Manual(h, "not semi-sync", func(x *world.Server) { x.SSSlave, x.SSReg = false, false })
+			case "io_connecting":
+				s.W.Cut(h, local, true) // the replica cannot reach the master; the master's daemon can reach the replica
+				sc.Cover("replica-io-thread-connecting")
 			case "refusing":
 				s.W.Crash(h)
 			case "timing_out":
